@@ -37,10 +37,12 @@ import common
 import pyfacts
 import resolvegen
 import resolvelib as rl
+import srcobl
 
 ID = 'C05'
 LEAN_MODULES = ['Yaql.Props.C05', 'Yaql.Props.C05Hist', 'Yaql.Props.C05Sig', 'Yaql.Props.C05SigGen',
-                'Yaql.Props.C05Iface']
+                'Yaql.Props.C05Iface'] + \
+    srcobl.modules('C05')     # Props/SrcResolve: Resolve.isSpecM = runner._is_specialization_of as it reads now
 P = 'Yaql.Props.C05.'
 REQUIRED_THEOREMS = [P + n for n in (
     'resolve_eq_spec', 'unknown_iff', 'first_layer_wins', 'most_specific', 'no_matching_iff', 'kind_filter',
@@ -54,11 +56,14 @@ REQUIRED_THEOREMS = [P + n for n in (
     'Yaql.Props.C05SigGen.stdlib_tables_follow_signatures', 'Yaql.Props.C05SigGen.stdlib_rows_nonempty'] + [
     'Yaql.Props.C05Iface.' + n for n in (
         'call_eq_spec', 'on_call', 'on_fresh', 'yis_stable', 'history_call_eq_spec', 'irun_erase_calls',
-        'call_insertion_invisible', 'inject_eq_caller', 'inject_step', 'Ex.stub_cache_wrong')]
+        'call_insertion_invisible', 'inject_eq_caller', 'inject_step', 'Ex.stub_cache_wrong')] + \
+    srcobl.theorems('C05')
 
 
 def generate():
-    return pyfacts.run(['SigTable'])['SigTable']
+    info = dict(pyfacts.run(['SigTable'])['SigTable'])
+    info.update(srcobl.generate('C05'))
+    return info
 TRUSTED = ['python dict/set semantics modelled as association lists',
            'resolvelib.expected_fd: transcription of the documented signature -> FunctionDefinition rules '
            '(extending_yaql.rst: parameter declaration, automatic parameters, hidden parameters, naming conventions)',
